@@ -115,7 +115,7 @@ def build(fam, archset="x86", extra_flags=(), main="main.cpp", with_scalar=True,
     hh.update(_hash_tree(HARNESS, (".hpp", ".cpp", ".inc")).encode())
     hh.update(" ".join(flags + [compiler, fam, archset, str(with_scalar)] + list(extra_srcs) + list(link_flags) + [f for a in archs for f in a[3]]).encode())
     key = hh.hexdigest()[:16]
-    parent = os.path.join(BUILD, "h", "%s_%s" % (slug(fam), archset))
+    parent = os.path.join(BUILD, "h", "%s_%s%s" % (slug(fam), archset, "_x" if os.environ.get("VERIF_EXTRA_CXXFLAGS") else ""))
     out = os.path.join(parent, key)
     exe = os.path.join(out, "vd")
     if os.path.exists(exe):
@@ -156,7 +156,7 @@ def build(fam, archset="x86", extra_flags=(), main="main.cpp", with_scalar=True,
         shutil.rmtree(out, ignore_errors=True)
         raise InfraError("harness link failed: " + r.stdout[-3000:])
     os.replace(exe + ".tmp", exe)
-    _prune(parent, 2)
+    _prune(parent, 3)
     return exe
 
 
